@@ -9,6 +9,7 @@
 #include <etl/_memory/addressof.hpp>
 #include <etl/_type_traits/add_pointer.hpp>
 #include <etl/_type_traits/decay.hpp>
+#include <etl/_type_traits/is_function.hpp>
 #include <etl/_type_traits/is_invocable_r.hpp>
 #include <etl/_type_traits/is_same.hpp>
 #include <etl/_utility/forward.hpp>
@@ -23,6 +24,16 @@ struct function_ref;
 
 template <bool Noexcept, typename R, typename... Args>
 struct function_ref<Noexcept, R(Args...)> {
+    template <typename F>
+        requires(etl::is_function_v<F> and etl::is_invocable_r_v<R, F*, Args...>)
+    function_ref(F* f) noexcept
+        : _obj(reinterpret_cast<void*>(f))
+        , _callable{+[](void* obj, Args... args) -> R {
+            return etl::invoke_r<R>(reinterpret_cast<F*>(obj), etl::forward<Args>(args)...);
+        }}
+    {
+    }
+
     template <typename F>
         requires(not etl::is_same_v<decay_t<F>, function_ref> and etl::is_invocable_r_v<R, F &&, Args...>)
     function_ref(F&& f) noexcept
